@@ -1,7 +1,9 @@
 package main
 
 import (
+	"crypto/tls"
 	"fmt"
+	"net"
 	"strings"
 	"sync"
 	"sync/atomic"
@@ -17,14 +19,14 @@ func init() {
 		ID: "C06", Level: "exploration", Primary: "pipeline_shapes", EvalCount: "requests_numbered",
 		Rule: "one pipeline = N (1..256) requests of mixed operations on one connection, message IDs a random permutation-like draw (so Request.ID cannot be confused with the message ID), written in one " +
 			"segment or dribbled; some requests have no route (gaps in the observed numbering); a PRNG-chosen subset of handlers parks on a rendezvous: handler i returns only after handler i+d " +
-			"(or a handler on a second connection) has entered. Oracle: Request.ID == 1-based position in the client's send order for every handler invocation; every rendezvous completes. " +
+			"(or a handler on a second connection) has entered; a second family of pipelines performs a real StartTLS upgrade in the middle (numbering must continue across it). Oracle: Request.ID == 1-based position in the client's send order for every handler invocation; every rendezvous completes. " +
 			"distinct_nontrivial = distinct (N, operation mix, rendezvous pattern, write mode) signatures with at least one satisfied rendezvous",
 		Assume: []string{"extended requests are identified by the exact-name route that served them (their message ID is not exposed to handlers)",
 			"a rendezvous that does not complete within the watchdog is judged only by the recorded enter/exit order (serial dispatch), otherwise inconclusive"},
 		Phases: func(tier string, seed int64) []Phase {
 			return []Phase{{Name: "pipelines", Run: c06Run}}
 		},
-		MinObserved: []string{"requests_numbered", "rendezvous_satisfied", "cross_connection_rendezvous_satisfied"},
+		MinObserved: []string{"requests_numbered", "rendezvous_satisfied", "cross_connection_rendezvous_satisfied", "pipelines_with_starttls_upgrade"},
 	})
 }
 
@@ -395,7 +397,111 @@ func c06Waits(cn *c06Conn) []string {
 	return out
 }
 
+// c06StartTLS: numbering continues across a StartTLS upgrade (the StartTLS request itself takes a number).
+func c06StartTLS(c *Ctx, r *Rand, pki *PKI, idx int) {
+	type rec struct {
+		msgID int64
+		reqID int
+	}
+	var mu sync.Mutex
+	var recs []rec
+	h := func(w *gldap.ResponseWriter, req *gldap.Request) {
+		o := observe("", req)
+		mu.Lock()
+		recs = append(recs, rec{o.ID, req.ID})
+		mu.Unlock()
+		replyFor(o, w, req)
+	}
+	startTLSID := 0
+	srv, err := startSrv(SrvCfg{}, func(m *gldap.Mux) {
+		m.Bind(h)
+		m.Search(h)
+		m.Delete(h)
+		m.ExtendedOperation(func(w *gldap.ResponseWriter, req *gldap.Request) {
+			mu.Lock()
+			startTLSID = req.ID
+			mu.Unlock()
+			w.Write(req.NewExtendedResponse(gldap.WithResponseCode(0)))
+			req.StartTLS(pki.ServerOnly)
+		}, gldap.ExtendedOperationStartTLS)
+	})
+	if err != nil {
+		c.Inconclusive("server start: " + err.Error())
+		return
+	}
+	defer srv.StopWithin(patience)
+	cn, err := net.Dial("tcp", srv.Addr)
+	if err != nil {
+		c.Inconclusive("dial: " + err.Error())
+		return
+	}
+	defer cn.Close()
+	cl := wrapClient(cn)
+	k1, k2 := r.Intn(6), 1+r.Intn(12)
+	pos := map[int64]int{}
+	mk := func(id int64, p int) []byte {
+		pos[id] = p
+		switch p % 3 {
+		case 0:
+			return sber.Message(id, sber.BindRequest(3, []byte("cn=u"), []byte("p")), nil).Encode()
+		case 1:
+			return sber.Message(id, sber.DelRequest([]byte("cn=u")), nil).Encode()
+		}
+		return sber.Message(id, sber.Search{Base: []byte("dc=x"), Scope: 2, Filter: sber.PresentFilter("cn"), Attrs: [][]byte{}}.Node(), nil).Encode()
+	}
+	for p := 1; p <= k1; p++ {
+		cl.Send(mk(int64(5000-p), p))
+		if _, err := cl.ReadMsg(patience); err != nil {
+			c.Inconclusive("pre-upgrade response: " + err.Error())
+			return
+		}
+	}
+	cl.Send(sber.Message(7777, sber.ExtendedRequest([]byte(sber.OIDStartTLS), nil, false), nil).Encode())
+	if _, err := cl.ReadMsg(patience); err != nil {
+		c.Inconclusive("starttls response: " + err.Error())
+		return
+	}
+	tc := tls.Client(cn, pki.ClientPlain)
+	cn.SetDeadline(time.Now().Add(patience))
+	if err := tc.Handshake(); err != nil {
+		c.Inconclusive("handshake: " + err.Error())
+		return
+	}
+	cn.SetDeadline(time.Time{})
+	tcl := wrapClient(tc)
+	var all []byte
+	for j := 1; j <= k2; j++ {
+		all = append(all, mk(int64(9000-j), k1+1+j)...)
+	}
+	tcl.Send(all)
+	for j := 0; j < k2; j++ {
+		if _, err := tcl.ReadMsg(patience); err != nil {
+			c.Inconclusive("post-upgrade response: " + err.Error())
+			return
+		}
+	}
+	time.Sleep(time.Millisecond)
+	mu.Lock()
+	defer mu.Unlock()
+	det := map[string]any{"before_starttls": k1, "after_starttls": k2}
+	if startTLSID != k1+1 {
+		c.Violate("Request.ID is not the request's position in arrival order", fmt.Sprintf("the StartTLS request sent at position %d was numbered %d", k1+1, startTLSID), det)
+	}
+	for _, rc := range recs {
+		c.Count("requests_numbered", 1)
+		if want := pos[rc.msgID]; rc.reqID != want {
+			c.Violate("Request.ID is not the request's position in arrival order", fmt.Sprintf("with a StartTLS upgrade at position %d: the request sent at position %d was numbered %d", k1+1, want, rc.reqID), det)
+		}
+	}
+	c.Count("pipelines_with_starttls_upgrade", 1)
+	c.Distinct("pipeline_shapes", fmt.Sprintf("starttls/%d/%d", k1, k2))
+}
+
 func c06Run(c *Ctx) {
+	pki := newPKI()
+	for i := 0; i < c.N(40, 600); i++ {
+		c06StartTLS(c, c.Rng.Sub(fmt.Sprintf("tls%d", i)), pki, i)
+	}
 	n := c.N(300, 5000)
 	workers := 8
 	if !c.Quick() {
